@@ -178,6 +178,20 @@ macro_rules! wbin32 {
         cover(r.is_ok());
     }};
 }
+/// the exponent fields of the quick (binade-restricted) variants: subnormals, the smallest normal binade, [1, 2), [2^24, 2^25) and the largest binade.
+pub fn quick_binade(bits: u32) -> bool { let e = (bits >> 23) & 0xFF; e == 0 || e == 1 || e == 127 || e == 151 || e == 254 }
+
+macro_rules! wbin32q {
+    ($radix:expr, $base:expr, $eradix:expr, $F:expr, $notation:expr) => {{
+        const F: u128 = $F;
+        let bits: u32 = any();
+        assume(quick_binade(bits));
+        let v = f32::from_bits(bits);
+        let r = cmp_wbin_f32::<F>(v, $radix, $base, $eradix, $notation);
+        vcheck!(r.is_ok(), "power-of-two radix output denotes exactly the float's value");
+        cover(r.is_ok());
+    }};
+}
 macro_rules! wbin64 {
     ($radix:expr, $base:expr, $eradix:expr, $F:expr, $notation:expr) => {{
         const F: u128 = $F;
@@ -217,6 +231,7 @@ crate::harnesses! {
     /// radix 2 with max_significant_digits 1..=3, both round modes, every f32 in the binade [1, 2) (all 2^23 mantissas).
     /// (the bit-level contract of truncate_and_round is proved for every mantissa by the Verus unit wf_bintrunc)
     /// @prop C14
+    /// @tier thorough
     /// @feat pow2 radix
     /// @bound f32 values in [1, 2) and (-2, -1]
     /// @fn lexical-write-float::binary::truncate_and_round
@@ -253,6 +268,7 @@ crate::harnesses! {
 
     /// radix 16 with max_significant_digits 1..=2, both round modes, f32 with binary exponent in -7..=7.
     /// @prop C14
+    /// @tier thorough
     /// @bound f32 values with binary exponent in -7..=7
     /// @feat pow2 radix
     /// @fn lexical-write-float::binary::truncate_and_round
@@ -292,8 +308,47 @@ crate::harnesses! {
     #[cfg_attr(kani, kani::unwind(16))]
     fn rt_f32_radix8() { rt32!(crate::radix_format(8), 0) }
 
+    /// hex float (radix 16, exponent base 2), every f32 mantissa in five binades (subnormal, smallest normal, [1,2), [2^24,2^25), largest), both signs.
+    /// @prop C06 C09
+    /// @bound f32 values whose exponent field is one of 0, 1, 127, 151, 254
+    /// @feat pow2 radix
+    /// @fn lexical-write-float::hex::write_float
+    /// @fn lexical-write-float::hex::{write_float_scientific, write_float_positive_exponent, write_float_negative_exponent}
+    /// @fn lexical-write-float::binary::{truncate_and_round, write_float_*}
+    /// @timeout 1200
+    #[cfg_attr(kani, kani::unwind(14))]
+    fn wbin_f32_hex16_base2_binades() { wbin32q!(16, 2, 10, mixed_format(16, 2), 0) }
+
+    /// radix 16 (same exponent base), every f32 mantissa in the same five binades, both signs.
+    /// @prop C06 C09
+    /// @bound f32 values whose exponent field is one of 0, 1, 127, 151, 254
+    /// @feat pow2 radix
+    /// @fn lexical-write-float::binary::write_float
+    /// @timeout 1200
+    #[cfg_attr(kani, kani::unwind(14))]
+    fn wbin_f32_radix16_binades() { wbin32q!(16, 16, 16, crate::radix_format(16), 0) }
+
+    /// radix 16 with max_significant_digits 1..=2, both round modes, f32 in [0.5, 4) (known finding F11 lives here).
+    /// @prop C14
+    /// @bound f32 values with binary exponent in -1..=1
+    /// @feat pow2 radix
+    /// @fn lexical-write-float::binary::truncate_and_round
+    /// @fn lexical-write-float::binary::{write_float_scientific, write_float_positive_exponent, write_float_negative_exponent} (digit alignment)
+    /// @timeout 1200
+    #[cfg_attr(kani, kani::unwind(16))]
+    fn wbin_maxdigits_r16_binades() {
+        const F: u128 = crate::radix_format(16);
+        let bits: u32 = any(); assume((bits >> 23) & 0xFF >= 126 && (bits >> 23) & 0xFF <= 128);
+        let v = f32::from_bits(bits);
+        let max: usize = any(); assume(max >= 1 && max <= 2);
+        let truncate: bool = any();
+        let r = cmp_wbin_maxdigits_f32::<F>(v, 16, 16, 16, max, truncate);
+        vcheck!(r.is_ok(), "radix 16: output == float rounded to max_significant_digits");
+    }
+
     /// every finite f32, radix 16 with exponent base 2 (hex float), default notation.
     /// @prop C06 C09
+    /// @tier thorough
     /// @mem 10
     /// @feat pow2 radix
     /// @fn lexical-write-float::hex::write_float
@@ -305,6 +360,7 @@ crate::harnesses! {
 
     /// every finite f32, radix 16 (same exponent base), default notation.
     /// @prop C06 C09
+    /// @tier thorough
     /// @mem 10
     /// @feat pow2 radix
     /// @fn lexical-write-float::binary::write_float
@@ -314,6 +370,7 @@ crate::harnesses! {
 
     /// every finite f32, radix 8.
     /// @prop C06 C09
+    /// @tier thorough
     /// @mem 10
     /// @feat pow2 radix
     /// @fn lexical-write-float::binary::write_float
